@@ -320,7 +320,13 @@ func (t *Topic) validate(ctx context.Context, data []byte, opts ...PubOpt) (*Mes
 
 	if pub.ready != nil {
 		if t.p.disc.discovery != nil {
-			t.p.disc.Bootstrap(ctx, t.topic, pub.ready)
+			if !t.p.disc.Bootstrap(ctx, t.topic, pub.ready) {
+				// Bootstrap gave up: the node is shutting down or ctx ended before the router was ready
+				if err := t.p.ctx.Err(); err != nil {
+					return nil, err
+				}
+				return nil, fmt.Errorf("router is not ready: %w", ctx.Err())
+			}
 		} else {
 			// TODO: we could likely do better than polling every 200ms.
 			// For example, block this goroutine on a channel,
